@@ -176,20 +176,29 @@ def check_cli_files(ctx, count):
             texts, nlines = [], 0
             in_fmt = rng.choice(["agp", "tpf"]); out_fmt = rng.choice(["agp", "tpf"])
             args = []
+            # file naming: different stems; the SAME stem in different directories (hap1/curated.agp hap2/curated.agp); --name given
+            # (every input then carries the same assembly name) — none of which may drop a line
+            naming = rng.choice(["distinct", "distinct", "same-stem", "name-option"])
             for j in range(k):
                 a = T.rand_assembly(rng, "both")
                 a["header"] = []
                 for s_ in a["scaffolds"]:
                     s_["name"] = f"f{j}_" + s_["name"].replace("#", "h")
                 t = T.real_format(a, in_fmt)["ok"]
-                (d / f"in{j}.{in_fmt}").write_text(t)
-                args.append(str(d / f"in{j}.{in_fmt}"))
+                if naming == "same-stem":
+                    (d / f"dir{j}").mkdir()
+                    fp = d / f"dir{j}" / f"curated.{in_fmt}"
+                else:
+                    fp = d / f"in{j}.{in_fmt}"
+                fp.write_text(t)
+                args.append(str(fp))
                 nlines += len([l for l in t.splitlines() if l.strip() and not l.startswith("#")])
                 texts.append(t)
             outp = d / f"out.{out_fmt}"
-            r = CliRunner().invoke(cli, args + ["-o", str(outp)])
-            inp = {"inputs": texts, "in_fmt": in_fmt, "out_fmt": out_fmt}
-            out.case("cli-files", inp, ("cli-files", k, in_fmt, out_fmt, r.exit_code))
+            extra = ["-n", "asm"] if naming == "name-option" else []
+            r = CliRunner().invoke(cli, args + extra + ["-o", str(outp)])
+            inp = {"inputs": texts, "in_fmt": in_fmt, "out_fmt": out_fmt, "file_naming": naming}
+            out.case("cli-files", inp, ("cli-files", k, in_fmt, out_fmt, naming, r.exit_code))
             if r.exit_code != 0 or not outp.exists():
                 out.oracle_fail("cli-files", inp, f"asm-format failed on well-formed files (exit {r.exit_code})")
                 continue
@@ -201,7 +210,7 @@ def check_cli_files(ctx, count):
 def run(ctx):
     rng = ctx.rng
     n = 8 if ctx.thorough else 1
-    check_cli_files(ctx, 20 * n)
+    check_cli_files(ctx, 40 * n)
     check_roundtrip(ctx, "wf-both", [T.rand_assembly(rng, "both") for _ in range(300 * n)], "both")
     check_roundtrip(ctx, "wf-agp", [T.rand_assembly(rng, "agp") for _ in range(300 * n)], "agp")
     check_roundtrip(ctx, "loose", [T.rand_assembly(rng, "loose") for _ in range(200 * n)], "loose")
